@@ -97,14 +97,17 @@ Definition set_init (ch : list node) (new_init : V) : res (list node) :=
 
 Definition add_fix (ch : list node) : list node := insert_before_or_at_end r_RPAR [ws_tok; fix_tok] ch.
 
-(* the loop of the "Need to split xn" branch; ch is the running node, j counts down the remaining *)
-Fixpoint split_items (ch : list node) (fix0 : bool) (vals : list (V * bool)) : res (list node) :=
+(* the loop of the "Need to split xn" branch; ch is the running node.  (Since commit b54b188 every copy gets
+   FIX iff its own parameter is fixed; before, the test "new_fix[j] != fix" against the ORIGINAL flag inverted it.) *)
+Fixpoint split_items (ch : list node) (vals : list (V * bool)) : res (list node) :=
   match vals with
   | [] => Ok []
   | (v, fx) :: tl =>
       bind (set_init ch v) (fun ch1 =>
-      let ch2 := if negb (Bool.eqb fx fix0) then add_fix ch1 else rtas r_FIX ch1 in
-      bind (split_items ch2 fix0 tl) (fun rest =>
+      let has_fix := has r_FIX ch1 in
+      let ch2 := if fx && negb has_fix then add_fix ch1
+                 else if negb fx && has_fix then rtas r_FIX ch1 else ch1 in
+      bind (split_items ch2 tl) (fun rest =>
       Ok (Tree r_diag_item ch2 :: match tl with [] => [] | _ => [ws_tree] end ++ rest)))
   end.
 
@@ -123,7 +126,7 @@ Definition update_item (ch : list node) (grp : list oparam) : res (list node) :=
            Ok [Tree r_diag_item (if negb (Bool.eqb f0 fix0)
                                  then (if f0 then add_fix ch1 else rtas r_FIX ch1)
                                  else ch1)])
-      else split_items (remove_rule r_n ch) fix0 vals
+      else split_items (remove_rule r_n ch) vals
   end.
 
 Fixpoint odiag_update_children (ch : list node) (ps : list oparam) : res (list node) :=
@@ -144,18 +147,26 @@ Definition odiag_update (root : node) (ps : list oparam) : res node :=
 (* ---------------------------------------------------------------- remove, diagonal branch *)
 (* inds: indices i of the diag_item NODES to drop; everything from a dropped item (or the DIAGONAL(n)
    option) up to the next kept item goes with it *)
-Fixpoint odiag_remove_children (ch : list node) (i : nat) (in_keep : bool) (inds : list nat) : list node :=
+Fixpoint odiag_remove_children (ch : list node) (i : nat) (in_keep : bool) (inds : list nat) : list node * bool :=
   match ch with
-  | [] => []
+  | [] => ([], in_keep)
   | c :: tl =>
       let in_keep1 := if has_rule r_diagonal c then false else in_keep in
       let '(in_keep2, i2) := if has_rule r_diag_item c then (negb (memn' i inds), S i) else (in_keep1, i) in
-      (if in_keep2 then [c] else []) ++ odiag_remove_children tl i2 in_keep2 inds
+      let '(rest, final) := odiag_remove_children tl i2 in_keep2 inds in
+      ((if in_keep2 then [c] else []) ++ rest, final)
   end.
+(* (since commit 5bd60d8 the record keeps its final NEWLINE when the scan dropped it) *)
 Definition odiag_remove (root : node) (inds : list nat) : node :=
   match inds with
   | [] => root
-  | _ => Tree (rule_of root) (odiag_remove_children (children root) 0 true inds)
+  | _ =>
+      let '(keep, last_kept) := odiag_remove_children (children root) 0 true inds in
+      let keep' := match keep, last (map Some (children root)) None with
+                   | _ :: _, Some l => if has_rule r_NEWLINE l && negb last_kept then keep ++ [l] else keep
+                   | _, _ => keep
+                   end in
+      Tree (rule_of root) keep'
   end.
 
 (* ---------------------------------------------------------------- guards *)
@@ -166,15 +177,15 @@ Definition g_orepr (p : oparam) : bool := o_fix p || negb (veqb F (o_init p) (vz
 Definition g_owritten (sd : bool) (p : oparam) : bool :=
   o_fix p || negb (veqb F (if sd then fsqrt F (o_init p) else o_init p) (vzero F)).
 
-(* the parameters of a (..)xn item stay equal (otherwise the item is split: FIX is inverted, the name
-   comment moves to the last copy, later copies are re-spelled) *)
+(* the parameters of a (..)xn item stay equal (otherwise the item is split: values and FIX are written
+   correctly since commit b54b188, but the name comment moves to the last copy and later copies are
+   re-spelled).  Not a conjunct of the read-back guard any more; used for names / spelling only. *)
 Definition g_oxn (ch : list node) (grp : list oparam) : bool :=
   all_eqb (veqb F) (map (@o_init) grp) && all_eqb Bool.eqb (map (@o_fix) grp).
 
 (* the conditions of the read-back theorem for one item and its group of new parameters *)
 Definition oguard_item (ch : list node) (n : N) (grp : list oparam) : bool :=
   Nat.eqb (length grp) (N.to_nat n) && negb (N.eqb n 0)
-  && g_oxn ch grp
   && forallb (g_sd_exact (has r_SD ch)) grp
   && forallb (g_owritten (has r_SD ch)) grp
   && negb (has r_SD ch && has r_VAR ch).
